@@ -5,6 +5,11 @@ import json, subprocess
 LOOPNOTE = 'Trusts: A1 token contract (lower-case tag names, exact serialiser/tokeniser round trip), sanitizeAttrs replaced by an arbitrary-result stub, policy tables of at most 2 entries per kind (an upper bound that is general for one step: one step looks up one name per table), z3 5.1 / cvc5 1.0, go/ssa semantics as interpreted.'
 
 CLAIMED = {
+ "C11": dict(
+   text="Unit-level symbolic execution of the real sanitizeAttrs (go/ssa) on an element with up to 2 (quick) / 3 (thorough) attributes whose keys range over href/rel/target/other/free and whose values are free strings, for concrete combinations of the five link options (8 quick / all 31 thorough) and elements a/area/link/other. On every path SMT decides the oracle written from the statement: required rel tokens present as white-space delimited tokens (regular-language membership on the emitted rel), target=_blank on host-qualified <a>, noopener whenever target=_blank, existing rel kept as prefix, no required token appended twice. A rel-token helper, if present, is first proven equivalent to the regular token predicate on its own body and then summarised. Counterexamples are refined to replayable URLs and replayed through the real sanitizeAttrs.",
+   note="Trusts: validURL replaced by an arbitrary verdict/value stub (C03's subject); url.Parse as an uninterpreted function (A3), the oracle's 'has a host' uses the same function; Fields bounded to 4/5 tokens in the helper lemma; z3 5.1 / cvc5 1.0; go/ssa semantics as interpreted.",
+   technique="symbolic execution of go/ssa + SMT strings/regex (unit harness, lemma-validated function summary)", design="5 C11"),
+
  "C08": dict(
    text="Bounded model checking of the extracted loop relation: the step relation (one disjunct per feasible symbolic path of the loop body, regenerated from go/ssa) is unrolled k times from the initial loop state together with an SMT-encoded nesting monitor (stack of open elements, count D of open disallowed skip-content elements); unsat of 'a token inside a skipped region is written, or text outside is dropped' for every k up to the bound covers every token sequence, every assignment of names from the name domain and every symbolic policy at once. quick k<=5, thorough k<=7.",
    note=LOOPNOTE + " Bounded: sequence length k; element names from a finite domain (4 generic names, script, style, one void, one RCDATA name); skip-content set free of void elements and frame (observation recorded in DESIGN.md).", technique="symbolic execution of go/ssa + SMT bounded model checking (k-unrolling of the step relation with a nesting monitor)", design="5 C08"),
